@@ -17,6 +17,8 @@ struct Viol {
     key: String,
     msg: String,
     session_from: u64,
+    /// found in a session of the shipped-profile binary
+    shipped: bool,
 }
 
 fn kv<'a>(line: &'a str, key: &str) -> Option<&'a str> {
@@ -148,7 +150,14 @@ fn run_miri(sim_dir: &Path, target: &Path, prof: Profile, prop: &str, base: u64,
     r
 }
 
+/// Set while a violation found in a shipped-profile session is being reproduced and minimised:
+/// every child process then runs that binary.
+static EXE_OVERRIDE: std::sync::Mutex<Option<PathBuf>> = std::sync::Mutex::new(None);
+
 fn exe() -> PathBuf {
+    if let Some(p) = EXE_OVERRIDE.lock().unwrap_or_else(std::sync::PoisonError::into_inner).clone() {
+        return p;
+    }
     std::env::current_exe().expect("current_exe")
 }
 
@@ -398,8 +407,9 @@ fn stress_replay(vdir: &Path, sim_dir: &Path, prof: Profile, prop: &str, seed: u
         }
         let _ = std::fs::remove_file(&path);
     }
+    let build_line = if first.shipped { "# build=shipped\n" } else { "" };
     let header = format!(
-        "# replay file for property {prop}: {} [{}]\n# {}\n# found by the free-running stress phase (real threads, OS scheduler): this trace failed in {fails} of {tries} fresh-process re-executions.\n# re-execute: /verif/check --replay {} (repeats the trace up to 20 times until the invariant fails)\n",
+        "# replay file for property {prop}: {} [{}]\n# {}\n{build_line}# found by the free-running stress phase (real threads, OS scheduler): this trace failed in {fails} of {tries} fresh-process re-executions.\n# re-execute: /verif/check --replay {} (repeats the trace up to 20 times until the invariant fails)\n",
         first.inv,
         first.key,
         first.msg.replace('\n', " "),
@@ -501,6 +511,7 @@ pub fn check_main(args: &[String]) -> i32 {
     };
 
     // ---- native sessions
+    let shipped_exe: Option<PathBuf> = arg_val(args, "--shipped-exe").map(PathBuf::from).filter(|p| p.exists());
     let per = (runs + jobs - 1) / jobs;
     let mut kids = Vec::new();
     for j in 0..jobs {
@@ -508,13 +519,15 @@ pub fn check_main(args: &[String]) -> i32 {
         if from >= to {
             break;
         }
-        let child = Command::new(exe())
+        // every fourth session runs in the binary built with the profile users ship
+        let shipped = shipped_exe.is_some() && j % 4 == 3;
+        let child = Command::new(if shipped { shipped_exe.clone().unwrap_or_else(exe) } else { exe() })
             .args(["session", "--profile", prof.name(), "--base", &seed.to_string(), "--from", &from.to_string(), "--to", &to.to_string()])
             .stdout(Stdio::piped())
             .stderr(Stdio::piped())
             .spawn();
         match child {
-            Ok(c) => kids.push((from, to, std::thread::spawn(move || c.wait_with_output()))),
+            Ok(c) => kids.push((from, to, shipped, std::thread::spawn(move || c.wait_with_output()))),
             Err(e) => {
                 eprintln!("HARNESS-ERROR cannot spawn session: {e}");
                 return 2;
@@ -529,7 +542,9 @@ pub fn check_main(args: &[String]) -> i32 {
     let (mut nruns, mut harness_err) = (0u64, Vec::<String>::new());
     let mut viols: Vec<Viol> = Vec::new();
     let mut sample_runs: Vec<String> = Vec::new();
-    for (from, to, h) in kids {
+    let mut shipped_sessions = 0u64;
+    for (from, to, shipped, h) in kids {
+        shipped_sessions += u64::from(shipped);
         let out = match h.join() {
             Ok(Ok(o)) => o,
             _ => {
@@ -572,6 +587,7 @@ pub fn check_main(args: &[String]) -> i32 {
                     key: kv(l, "key").unwrap_or("").into(),
                     msg,
                     session_from: from,
+                    shipped,
                 });
             } else if let Some(rest) = l.strip_prefix("COUNT ") {
                 let mut it = rest.split_whitespace();
@@ -607,12 +623,14 @@ pub fn check_main(args: &[String]) -> i32 {
                             why.unwrap_or_else(|| se.lines().last().unwrap_or("no diagnostic on stderr").to_string())
                         ),
                         session_from: from,
+                        shipped,
                     });
                 }
                 _ => harness_err.push(format!("session {from}..{to} ended abnormally (status {:?}): {}", out.status, se.lines().last().unwrap_or(""))),
             }
         }
     }
+    counters.insert("sessions_in_shipped_profile_binary".into(), shipped_sessions);
     let native_wall = t0.elapsed().as_secs_f64();
     let miri = miri_handle.map(|h| h.join().unwrap_or(MiriResult { workloads: 0, executions: 0, failures: vec![], error: Some("miri thread panicked".into()), wall_s: 0.0, cmds: vec![] }));
     if let Some(m) = &miri {
@@ -653,7 +671,11 @@ pub fn check_main(args: &[String]) -> i32 {
     let mut violation_lines: Vec<String> = Vec::new();
     let mut min_note = String::new();
     if let Some(first) = fresh.iter().min_by_key(|v| (v.idx, v.key.clone())) {
-        println!("violation of {prop}: {} [{}] in run idx={} seed={}: {}", first.inv, first.key, first.idx, first.seed, first.msg);
+        println!("violation of {prop}: {} [{}] in run idx={} seed={}{}: {}", first.inv, first.key, first.idx, first.seed, if first.shipped { " (shipped-profile binary)" } else { "" }, first.msg);
+        if first.shipped {
+            *EXE_OVERRIDE.lock().unwrap_or_else(std::sync::PoisonError::into_inner) = shipped_exe.clone();
+        }
+        let build_line = if first.shipped { "# build=shipped (found and replayed in the binary built with cargo's plain release profile: no debug assertions)\n" } else { "" };
         let _ = std::fs::create_dir_all(vdir.join("replay"));
         let mut execs = 0u64;
         // alone in a fresh process, or else as the tail of its session's history
@@ -683,7 +705,7 @@ pub fn check_main(args: &[String]) -> i32 {
                 let (small, n) = minimise(t, &prop, &first.key, &scratch);
                 min_note.push_str(&format!("minimised {} -> {} operations, {} run(s), in {} replays", before, total_ops(&small), small.runs.len(), n + execs));
                 let text = format!(
-                    "# replay file for property {prop}: {} [{}]\n# {}\n# re-execute: /verif/check --replay {} (expects the same invariant to fail)\n{}",
+                    "# replay file for property {prop}: {} [{}]\n# {}\n{build_line}# re-execute: /verif/check --replay {} (expects the same invariant to fail)\n{}",
                     first.inv,
                     first.key,
                     first.msg.replace('\n', " "),
@@ -756,7 +778,7 @@ pub fn check_main(args: &[String]) -> i32 {
     };
     let nviol = fresh.len() as u64 + miri.as_ref().map_or(0, |m| m.failures.len() as u64);
     let evidence = format!(
-        "{{\n \"property_id\": {},\n \"tier\": {},\n \"seed\": {},\n \"level\": \"exploration\",\n \"coverage\": {{\n  \"evaluations\": {},\n  \"distinct_nontrivial\": {},\n  \"rule\": {},\n  \"samples\": [{}, {}],\n  \"simulated_runs\": {},\n  \"operations_executed\": {},\n  \"runs_per_hour\": {},\n  \"seeds\": {},\n  \"simulated_time\": \"none: the library has no clock, timer or deadline\",\n  \"distinct_interleavings_multithreaded\": {},\n  \"distinct_programmes\": {},\n  \"distinct_operation_outcome_classes\": {},\n  \"fault_kinds_fired\": {{{}}},\n  \"work\": {{{}}},\n  \"miri_engine\": {},\n  \"components\": {{\"real\": [\"yuvxyb (built from /repo working tree, feature verif-hooks)\", \"yuvxyb-math\", \"v_frame\", \"aligned-vec\", \"log facade\", \"OS threads\"], \"simulated\": [\"scheduler (baton, seeded)\", \"logger backend\", \"heap contents (global allocator fill)\", \"plane padding contents\"]}},\n  \"known_findings_matched\": {},\n  \"minimisation\": {},\n  \"exhaustive\": false\n }},\n \"assumptions\": [{}],\n \"wall_s\": {:.2},\n \"violations\": {}\n}}\n",
+        "{{\n \"property_id\": {},\n \"tier\": {},\n \"seed\": {},\n \"level\": \"exploration\",\n \"coverage\": {{\n  \"evaluations\": {},\n  \"distinct_nontrivial\": {},\n  \"rule\": {},\n  \"samples\": [{}, {}],\n  \"simulated_runs\": {},\n  \"operations_executed\": {},\n  \"runs_per_hour\": {},\n  \"seeds\": {},\n  \"simulated_time\": \"none: the library has no clock, timer or deadline\",\n  \"distinct_interleavings_multithreaded\": {},\n  \"distinct_programmes\": {},\n  \"distinct_operation_outcome_classes\": {},\n  \"fault_kinds_fired\": {{{}}},\n  \"work\": {{{}}},\n  \"miri_engine\": {},\n  \"components\": {{\"real\": [\"yuvxyb (built from /repo working tree, feature verif-hooks; checked profile = debug assertions + overflow checks, and for every fourth session the plain release profile users ship)\", \"yuvxyb-math\", \"v_frame\", \"aligned-vec\", \"log facade\", \"OS threads\"], \"simulated\": [\"scheduler (baton, seeded)\", \"logger backend\", \"heap contents (global allocator fill)\", \"plane padding contents\"]}},\n  \"known_findings_matched\": {},\n  \"minimisation\": {},\n  \"exhaustive\": false\n }},\n \"assumptions\": [{}],\n \"wall_s\": {:.2},\n \"violations\": {}\n}}\n",
         json_str(&prop),
         json_str(&tier),
         seed,
